@@ -268,6 +268,26 @@ def case_strategy(draw, tier):
             shuffled = draw(st.permutations(list(range(act['n']))))
             for c in act['cols']:
                 c['cells'] = [c['cells'][i] for i in shuffled]
+    # row labels are not data: the comparison is by position
+    if shuffled is not None and draw(st.booleans()):
+        act['index'] = [int(i) for i in shuffled]   # labels travel with rows
+        info['labels'] = 'carried-with-shuffle'
+    else:
+        lab = draw(st.sampled_from(['none', 'none', 'none', 'act-offset',
+                                    'ref-offset', 'act-reversed',
+                                    'act-strings', 'act-dups']))
+        if lab == 'act-offset':
+            act['index'] = [i + 7 for i in range(act['n'])]
+        elif lab == 'ref-offset':
+            ref['index'] = [2 * i for i in range(ref['n'])]
+        elif lab == 'act-reversed':
+            act['index'] = list(reversed(range(act['n'])))
+        elif lab == 'act-strings':
+            act['index'] = ['r%d' % i for i in range(act['n'])]
+        elif lab == 'act-dups':
+            act['index'] = [i // 2 for i in range(act['n'])]
+        if lab != 'none':
+            info['labels'] = lab
     ref_names = [c['name'] for c in ref['cols']]
     act_names = [c['name'] for c in act['cols']]
     opts = {
@@ -304,6 +324,14 @@ def valid_desc(d):
     try:
         names = [c['name'] for c in d['cols']]
         if not names or len(set(names)) != len(names):
+            return False
+        ix = d.get('index')
+        if ix is not None and not (isinstance(ix, list) and len(ix) == d['n']
+                                   and (all(isinstance(x, int)
+                                            and not isinstance(x, bool)
+                                            for x in ix)
+                                        or all(isinstance(x, str)
+                                               for x in ix))):
             return False
         for c in d['cols']:
             if c['kind'] not in KINDS or len(c['cells']) != d['n']:
@@ -492,7 +520,10 @@ def build_col(c):
 
 def build(d):
     import pandas as pd
-    return pd.DataFrame({c['name']: build_col(c) for c in d['cols']})
+    df = pd.DataFrame({c['name']: build_col(c) for c in d['cols']})
+    if d.get('index') is not None:
+        df.index = pd.Index(d['index'])
+    return df
 
 
 def as_option(o, which):
@@ -692,6 +723,8 @@ def run(case, ctx):
     edit = case['edit'].get('edit', '?')
     out.label('entry:' + entry.split(':')[0], 'edit:' + edit,
               'expect:' + ('pass' if expect else 'fail:' + '+'.join(kinds)))
+    if case['edit'].get('labels'):
+        out.label('row-labels:' + case['edit']['labels'])
     out.nontrivial = (not expect) or edit in ('cell_small',) or (
         edit != 'identical' and expect)
     kw = dict(check_data=as_option(o['check_data'], 'ref'),
